@@ -281,6 +281,37 @@ Proof.
       * exfalso. apply (walk_not_invalid fs (root ++ es) [] Ew).
 Qed.
 
+Theorem missing_404 : forall fs root meth name ae es,
+  (meth = GET \/ meth = HEAD) -> plain_path name = Some es -> forallb plain_elem root = true ->
+  fs_get fs (root ++ es) = None ->
+  serve fs root meth name ae [] false = {| r_status := 404; r_body := []; r_clen := []; r_cenc := [] |}.
+Proof.
+  intros fs root meth name ae es Hm Hp Hr Hg.
+  destruct (plain_dir_open fs root name es Hp) as [Hopen Hes].
+  unfold serve. replace (negb (bytes_eqb meth GET) && negb (bytes_eqb meth HEAD)) with false by (destruct Hm; subst meth; reflexivity).
+  unfold open_static_file, new_static_file. cbn [pick_sibling fst]. rewrite !Hopen.
+  destruct (walk fs [] (root ++ es)) eqn:Ew; cbn [fst]; try rewrite Ew; try reflexivity.
+  - apply walk_file in Ew. cbn [app] in Ew. congruence.
+  - apply walk_dir in Ew. cbn [app] in Ew. congruence.
+  - exfalso. apply (walk_not_toolong fs (root ++ es) []); [|exact Ew]. rewrite forallb_app, Hr, Hes. reflexivity.
+  - exfalso. apply (walk_not_invalid fs (root ++ es) [] Ew).
+Qed.
+
+Theorem plain_file_served : forall fs root meth name ae def es c,
+  (meth = GET \/ meth = HEAD) -> plain_path name = Some es -> fs_closed fs = true ->
+  fs_get fs (root ++ es) = Some (NFile c) ->
+  serve fs root meth name ae def false =
+    {| r_status := 200; r_body := if bytes_eqb meth HEAD then [] else c; r_clen := dec_of_Z (blen c); r_cenc := [] |}.
+Proof.
+  intros fs root meth name ae def es c Hm Hp Hcl Hg.
+  destruct (plain_dir_open fs root name es Hp) as [Hopen Hes].
+  assert (Hne : root ++ es <> []) by (intros E0; rewrite E0 in Hg; discriminate).
+  rewrite fs_get_find in Hg by exact Hne. change (root ++ es) with ([] ++ (root ++ es)) in Hg.
+  pose proof (walk_present fs Hcl (root ++ es) [] (NFile c) Hne Hg) as Hw.
+  unfold serve. replace (negb (bytes_eqb meth GET) && negb (bytes_eqb meth HEAD)) with false by (destruct Hm; subst meth; reflexivity).
+  unfold open_static_file, new_static_file. cbn [pick_sibling fst]. rewrite !Hopen, !Hw. reflexivity.
+Qed.
+
 Theorem prop_C50_of_model : forall i, dec_input i <> None -> prop_C50 i (run_C50 i) = true.
 Proof.
   intros i Hd. unfold prop_C50, run_C50. destruct (dec_input i) as [x|]; [|contradiction].
